@@ -19,14 +19,19 @@ def state_space_matrices(network: Network, c_values: dict[str, float] = {}, l_va
         return np.hstack((Delta, np.zeros((Delta.shape[0], voltage_source_mapper(network).N))))
     def source_and_inductance_incidence_matrix(values: dict[str, float]) -> tuple[np.ndarray, np.ndarray]:
         voltage_source_mapping_all = voltage_source_mapper(network)
+        current_source_mapping_all = current_source_mapper(network)
         source_mapping_all = map.default_source_mapper(network)
+        def column(label: str) -> int:
+            if label in current_source_mapping_all:
+                return current_source_mapping_all[label]
+            return current_source_mapping_all.N + voltage_source_mapping_all[label]
         Qi = source_incidence_matrix(network=network)
         Q = np.zeros((voltage_source_mapping_all.N, voltage_source_mapping_all.N), dtype=int)
         for i in voltage_source_mapping_all.values:
             Q[i][i] = 1
         Q = np.vstack((np.hstack( (Qi, np.zeros((Qi.shape[0], Q.shape[1]) ))),
                     np.hstack( (np.zeros((Q.shape[0], Qi.shape[1])), Q) )))
-        QS = Q[:,[source_mapping_all[l] for l in source_mapping_all if l not in l_values]]
+        QS = Q[:,[column(l) for l in current_source_mapping_all.keys + [vs for vs in voltage_source_mapping_all.keys if vs not in values]]]
         QL = Q[:,[source_mapping_all[l] for l in source_mapping_all if l in l_values]]
         return QS, QL
     def value_matrix(c_values: dict[str, float], l_values: dict[str, float]) -> np.ndarray:
